@@ -80,7 +80,7 @@ def run_sessions(ck, tier, suite="K.rbasex-cache"):
         ck.count((suite, len(ops), tuple(sorted({o.split(':')[0] for o in ops}))), suite=suite)
         rep = drive(["rbxcache " + " ".join(ops)])[0]
         model = [t.strip() for t in rep[3:].split("|")] if rep.startswith("ok") else [rep]
-        model = [m.split(":")[0] + " " + m.split(" ", 1)[1] if " " in m else m for m in model]      # drop the ghost tags of the outcome
+        model = [m.split(" ", 1)[0].split(":")[0] + " " + m.split(" ", 1)[1] if " " in m else m for m in model]      # drop the ghost tags of the outcome
         if len(model) != len(obs) or any(m != o for m, o in zip(model, obs)):
             first = next((i for i, (m, o) in enumerate(zip(model, obs)) if m != o), min(len(model), len(obs)))
             ck.disagree(suite, dict(session=log[:first + 1], implementation=obs[first] if first < len(obs) else None,
